@@ -125,7 +125,7 @@ mutual
     | neg (t : Term) (alias : Option Str)
     | arith (op : Arith) (l r : Term) (alias : Option Str)
     | basic (cmp : Str) (l r : Term) (alias : Option Str)
-    | complex (op : BoolOp) (l r : Term)
+    | complex (op : BoolOp) (l r : Term) (alias : Option Str)
     | not (t : Term) (alias : Option Str)
     | isin (t : Term) (container : Term) (negated : Bool) (alias : Option Str)
     | between (t lo hi : Term) (alias : Option Str)
